@@ -1,6 +1,7 @@
 package main
 
 import (
+	"bytes"
 	"encoding/binary"
 	"encoding/hex"
 	"fmt"
@@ -15,6 +16,7 @@ import (
 )
 
 func init() {
+	vlib.Register("C08", "jumbo", c08Jumbo)
 	vlib.Register("C08", "fold", c08Fold)
 	vlib.Register("C08", "sum", c08Sum)
 	vlib.Register("C08", "proto", c08Proto)
@@ -660,4 +662,109 @@ func c08RejKey(proto string, stored uint16) string {
 		return fmt.Sprintf("verify-rejects-written:%s:stored=%#04x", proto, stored)
 	}
 	return "verify-rejects-written:" + proto + ":stored=other"
+}
+
+// ---- 6. jumbograms whose one's complement sum lies around 2^32 ------------------------------------------------------------
+//
+// Verification subtracts the stored checksum from the sum over the packet; sums above 2^32 are folded on the way, and a
+// fold that yields less than the stored value makes that subtraction wrap. Only packets of more than 128 KiB of large
+// words reach such sums: IPv6 jumbograms filled with 0xff, walked across the boundary with a compensation word.
+
+func c08Jumbo(c *vlib.Ctx) {
+	protos := []string{"udp6", "tcp6", "icmp6"}
+	idx := 0
+	for pi, proto := range protos {
+		for ni := 0; ni < c.Pick(8, 16); ni++ {
+			idx++
+			if (pi*16+ni)%c.NBatch != c.Batch || !c.Begin(idx) {
+				continue
+			}
+			r := c.Rand(uint64(idx), 6)
+			src6, dst6 := net.IP(r.Bytes(16)), net.IP(r.Bytes(16))
+			sp, dp := r.U16(), r.U16()
+			// choose the payload length so that the plain 64-bit sum of the covered words (pseudo-header included) lies
+			// within one compensation word of 2^32: 65536 words of 0xffff give 2^32-65536, addresses and ports add a few
+			// words, every two bytes less take 0xffff away
+			raw := uint64(0)
+			for _, a := range [][]byte{src6, dst6} {
+				for i := 0; i < 16; i += 2 {
+					raw += uint64(binary.BigEndian.Uint16(a[i:]))
+				}
+			}
+			raw += uint64(sp) + uint64(dp) + 65536*0xffff
+			k := (int64(raw) - (1<<32 - 0x8000)) / 0xffff
+			n := 131072 - 2*(int(k)+ni-c.Pick(8, 16)/2)
+			step := c.Pick(2048, 512)
+			for w := r.Intn(step); w < 65536; w += step {
+				pl := bytes.Repeat([]byte{0xff}, n)
+				binary.BigEndian.PutUint16(pl[2:], uint16(w))
+				ip6 := &layers.IPv6{Version: 6, HopLimit: 64, SrcIP: src6, DstIP: dst6}
+				b := &c08Built{name: proto + "-jumbo", first: layers.LayerTypeIPv6, covStart: 48, addrOffs: [][2]int{{8, 24}, {24, 40}}}
+				var l4 gopacket.SerializableLayer
+				switch proto {
+				case "udp6":
+					u := &layers.UDP{SrcPort: layers.UDPPort(sp), DstPort: layers.UDPPort(dp)}
+					u.SetNetworkLayerForChecksum(ip6)
+					ip6.NextHeader = layers.IPProtocolUDP
+					l4, b.ckOff, b.layerT, b.udp = u, 48+6, layers.LayerTypeUDP, true
+				case "tcp6":
+					t := &layers.TCP{SrcPort: layers.TCPPort(sp), DstPort: layers.TCPPort(dp), Seq: 1, ACK: true, Window: 1000}
+					t.SetNetworkLayerForChecksum(ip6)
+					ip6.NextHeader = layers.IPProtocolTCP
+					l4, b.ckOff, b.layerT = t, 48+16, layers.LayerTypeTCP
+				default:
+					ic := &layers.ICMPv6{TypeCode: layers.CreateICMPv6TypeCode(128, 0)}
+					ic.SetNetworkLayerForChecksum(ip6)
+					ip6.NextHeader = layers.IPProtocolICMPv6
+					l4, b.ckOff, b.layerT = ic, 48+2, layers.LayerTypeICMPv6
+				}
+				b.bytes = c08Serialize(c, ip6, l4, gopacket.Payload(pl))
+				if b.bytes == nil {
+					break
+				}
+				nh := map[string]uint8{"udp6": 17, "tcp6": 6, "icmp6": 58}[proto]
+				b.pseudo = pk.PseudoV6(pk.A16(src6), pk.A16(dst6), nh, len(b.bytes)-48)
+				stored := binary.BigEndian.Uint16(b.bytes[b.ckOff:])
+				if want := b.ref(b.bytes); stored != want {
+					c.Violation("written-checksum-wrong:"+b.name, fmt.Sprintf("%s: serializer wrote %#04x, reference %#04x", b.name, stored, want), map[string]any{"payload_len": n, "word": w})
+					break
+				}
+				res, _, err, _ := b.verify(b.bytes)
+				if err != nil || !res.Valid {
+					c.Violation("verify-rejects-written:"+b.name, fmt.Sprintf("%s: verification of a freshly serialized jumbogram: err=%v valid=%v", b.name, err, res.Valid), map[string]any{"payload_len": n, "word": w})
+					break
+				}
+				c.Evals(1)
+				// single bit flips in the payload (the covered range cannot change): reported invalid, with the reference value
+				bad := false
+				for k := 0; k < 24 && !bad; k++ {
+					bit := (len(b.bytes)-2)*8 + k // the 16 bits of the last word, then PRNG bits of the payload
+					if k >= 16 {
+						bit = (48+40)*8 + r.Intn((n-64)*8)
+					}
+					fb := append([]byte{}, b.bytes...)
+					fb[bit/8] ^= 1 << uint(7-bit%8)
+					fr, _, ferr, _ := b.verify(fb)
+					want := b.ref(fb)
+					c.Evals(1)
+					switch {
+					case ferr != nil:
+						// the flipped packet no longer decodes to this layer: nothing to compare
+					case fr.Valid:
+						c.Violation("bit-flip-accepted:"+b.name, fmt.Sprintf("%s: bit %d flipped and the jumbogram still verifies", b.name, bit), map[string]any{"payload_len": n, "word": w})
+						bad = true
+					case fr.Correct != uint32(want):
+						c.Violation("verify-reports-wrong-expected:"+b.name, fmt.Sprintf("%s: bit %d flipped: Correct=%#04x, reference %#04x", b.name, bit, fr.Correct, want), map[string]any{"payload_len": n, "word": w, "stored": stored})
+						bad = true
+					}
+				}
+				c.Count("jumbograms_verified", 1)
+				c.NonTrivial(vlib.Mix(uint64(idx), uint64(w), 66))
+				if bad {
+					break
+				}
+			}
+			c.End()
+		}
+	}
 }
